@@ -23,6 +23,13 @@ theorem encode_accepts_iff_spec (p : Params) (x : Frame) (r : Int) :
     encodeRoute p x = .ok r ↔ AcceptSpec (Req.of p x) r :=
   route_iff (Req.of p x) r
 
+/-- ... and on every route the codec is handed **the request's own** rows, columns, samples per pixel, bits
+allocated, bits stored and pixel representation (for the pydicom encoder: the keyword arguments of the call
+as they stand in the source; the remaining keywords are checked textually by the translation target). -/
+theorem encode_hands_off_request (p : Params) (x : Frame) (v : Int × Int × Int × Int × Int × Int × Int) :
+    encodeRouteFull p x = .ok v ↔ AcceptSpec (Req.of p x) v.1 ∧ HandOff (Req.of p x) v :=
+  routeFull_iff (Req.of p x) v
+
 /-- Accepted ⇒ representable as a DICOM pixel data element (1 or 3 samples with a fitting photometric
 interpretation, planar configuration iff colour, bits stored within bits allocated, and for native
 frames: cell width and signedness equal to the array's, single-bit frames filling whole bytes).
@@ -78,6 +85,16 @@ theorem refuses_bits_stored_out_of_range (p : Params) (x : Frame)
   rw [refused_iff]; rintro ⟨r, ⟨_, _, _, h1, h2⟩, _⟩
   simp only [Req.of] at h1 h2
   omega
+
+/-- Native: when fewer bits are stored than allocated, a frame with a sample outside the stored range (already the
+smallest or the largest one) is refused. -/
+theorem refuses_samples_outside_stored_range (p : Params) (x : Frame) (hts : p.ts ∈ nativeSyntaxes)
+    (hba : p.bitsAllocated ≠ 1) (hlt : p.bitsStored < p.bitsAllocated)
+    (hout : ¬ StoredRange p.pixelRepresentation p.bitsStored x.min x.max) : ∃ e, encodeRoute p x = .error e := by
+  rw [refused_iff]; rintro ⟨r, _, hs⟩
+  have : p.ts = "1.2.840.10008.1.2" ∨ p.ts = "1.2.840.10008.1.2.1" := by simpa [nativeSyntaxes] using hts
+  simp only [NativeOK, BaselineOK, RleOK, JpegFamilyOK, Req.of, jpegBaseline, rle, jpegLs, jpegLsNear, j2k, j2kLossless] at hs
+  grind (splits := 40)
 
 /-- Native single-bit frames that do not fill whole bytes are refused (a stand-alone frame cannot end
 inside a byte). -/
@@ -153,21 +170,52 @@ theorem native_bits_roundtrip (c : CodecImpl) (conv : List Int → List Int) (p 
   Codec.native_bits_roundtrip c conv p x bytes hwf hts hba henc
 
 /- Full statement (does NOT hold on the current code, see `counterexample_ybr_full`):
-   native_cells_roundtrip : x.WF → FitsStored p x → p.ts ∈ nativeSyntaxes → p.bitsAllocated ≠ 1 →
+   native_cells_roundtrip : x.WF → p.ts ∈ nativeSyntaxes → p.bitsAllocated ≠ 1 →
      encodeFrame c p x = .ok bytes → decodeFrame c conv p x.rows x.cols x.spp bytes = .ok x.data -/
 /-- **Native frames of >= 8 bits** (`native_roundtrip`): for every shape, every dtype that is accepted
 (bool, uint8/16/32, int8/16/32 with matching bits allocated and pixel representation), every bits
-stored and every content that fits it, `decode_frame (encode_frame x) = x`, and pydicom's decode of
-the bytes as a one-frame image is `x` as well.  Partial: photometric interpretations that pydicom
-converts to RGB while decoding (`YBR_FULL` with 3 samples) are excluded -- exactly the region of the
-open finding C07-ybr-full-decoded-as-rgb. -/
+stored and **every content** -- whatever is accepted has all samples within the stored bits, and
+`decode_frame (encode_frame x) = x`, and pydicom's decode of the bytes as a one-frame image is `x` as
+well.  Partial: photometric interpretations that pydicom converts to RGB while decoding (`YBR_FULL`
+with 3 samples) are excluded -- exactly the region of the open finding C07-ybr-full-decoded-as-rgb. -/
 theorem native_cells_roundtrip_partial (c : CodecImpl) (conv : List Int → List Int) (p : Params) (x : Frame)
-    (bytes : List Nat) (hwf : x.WF) (hfit : FitsStored p x) (hts : p.ts ∈ nativeSyntaxes) (hba : p.bitsAllocated ≠ 1)
+    (bytes : List Nat) (hwf : x.WF) (hts : p.ts ∈ nativeSyntaxes) (hba : p.bitsAllocated ≠ 1)
     (hnc : convertsColour p.pi x.spp = false) (henc : encodeFrame c p x = .ok bytes) :
     decodeFrame c conv p x.rows x.cols x.spp bytes = .ok x.data ∧
     pydicomNative conv p x.rows x.cols x.spp bytes = .ok x.data := by
-  have := native_cells_decode c conv p x bytes hwf hfit hts hba henc
+  have := (native_cells_decode c conv p x bytes hwf hts hba henc).2
   simpa [hnc] using this
+
+/-- **Every sample of an accepted frame fits the stored bits** -- natively by `encode_frame`'s own check (against the
+smallest and largest sample when fewer bits are stored than allocated, by the dtype otherwise); on the encapsulated
+routes because the encoder validates the frame against the parameters it is handed (`Validating`, exercised on
+the real pydicom encoders) and is handed the request's own bits stored (`encode_hands_off_request`). -/
+theorem accepted_samples_fit_stored (c : CodecImpl) (hv : c.Validating) (p : Params) (x : Frame) (bytes : List Nat)
+    (hwf : x.WF) (hba : p.bitsAllocated ≠ 1) (henc : encodeFrame c p x = .ok bytes) : FitsStored p x := by
+  by_cases hts : p.ts ∈ nativeSyntaxes
+  · exact (native_cells_decode c id p x bytes hwf hts hba henc).1
+  · obtain ⟨r, hr, hb⟩ := encodeFrame_ok c p x bytes henc
+    have hs := route_sound (Req.of p x) r (by rw [← encodeRoute_eq]; exact hr)
+    rcases hb with ⟨h1, _⟩ | ⟨_, h2, _⟩ | ⟨_, _, hcodec⟩
+    · exfalso; subst h1
+      obtain ⟨_, hc⟩ := hs
+      rcases hc with h | h | h | h
+      · rcases h.1 with e | e <;> simp [Req.of] at e <;> simp [nativeSyntaxes, e] at hts
+      · exact absurd h.2.2.2.2.2 (by decide)
+      · exact absurd h.2.2 (by decide)
+      · rcases h.2.2.2.2 with h4 | h4
+        · exact absurd h4.2.2.2 (by decide)
+        · exact absurd h4.2 (by decide)
+    · exfalso; subst h2
+      obtain ⟨_, hc⟩ := hs
+      rcases hc with h | h | h | h
+      · rcases h.1 with e | e <;> simp [Req.of] at e <;> simp [nativeSyntaxes, e] at hts
+      · exact absurd h.2.2.2.2.2 (by decide)
+      · exact absurd h.2.2 (by decide)
+      · rcases h.2.2.2.2 with h4 | h4
+        · exact absurd h4.2.2.2 (by decide)
+        · exact absurd h4.2 (by decide)
+    · exact hv p x bytes hcodec
 
 /- Full statement: as below without `hnc`. -/
 /-- **Encapsulated lossless syntaxes**: if the codec behind the route is lossless (law `Lossless`, exercised
@@ -184,10 +232,10 @@ theorem encapsulated_roundtrip_partial (c : CodecImpl) (hc : c.Lossless) (conv :
 syntaxes and by RLE, stored as given, but `decode_frame` returns it converted to RGB -- for every frame
 on which that conversion is not the identity the round trip fails. -/
 theorem ybr_full_decodes_converted (c : CodecImpl) (conv : List Int → List Int) (p : Params) (x : Frame)
-    (bytes : List Nat) (hwf : x.WF) (hfit : FitsStored p x) (hts : p.ts ∈ nativeSyntaxes) (hba : p.bitsAllocated ≠ 1)
+    (bytes : List Nat) (hwf : x.WF) (hts : p.ts ∈ nativeSyntaxes) (hba : p.bitsAllocated ≠ 1)
     (hpi : p.pi = "YBR_FULL") (h3 : x.spp = 3) (henc : encodeFrame c p x = .ok bytes) :
     decodeFrame c conv p x.rows x.cols x.spp bytes = .ok (conv x.data) := by
-  have := (native_cells_decode c conv p x bytes hwf hfit hts hba henc).1
+  have := (native_cells_decode c conv p x bytes hwf hts hba henc).2.1
   simpa [convertsColour, hpi, h3] using this
 
 /-- the one-pixel witness (Y, Cb, Cr) = (255, 0, 0): accepted, stored as `FF 00 00`, decoded as `conv [255,0,0]` -/
@@ -199,11 +247,11 @@ theorem counterexample_ybr_full (c : CodecImpl) (conv : List Int → List Int) (
     decodeFrame c conv ybrWitnessP 1 1 3 [255, 0, 0] ≠ .ok ybrWitnessX.data := by
   have henc : encodeFrame c ybrWitnessP ybrWitnessX = .ok [255, 0, 0] := by
     have hr : encodeRoute ybrWitnessP ybrWitnessX = .ok 2 := by decide
-    unfold encodeFrame; rw [hr]; rfl
+    have hf : encodeRouteFull ybrWitnessP ybrWitnessX = .ok (2, 1, 1, 3, 8, 8, 0) := by rfl
+    unfold encodeFrame; rw [hf]; rfl
   refine ⟨henc, ?_⟩
   have := ybr_full_decodes_converted c conv ybrWitnessP ybrWitnessX [255, 0, 0]
-    (by unfold Frame.WF ybrWitnessX; decide) (by unfold FitsStored ybrWitnessP ybrWitnessX; decide)
-    (by decide) (by decide) rfl rfl henc
+    (by unfold Frame.WF ybrWitnessX; decide) (by decide) (by decide) rfl rfl henc
   have e : ybrWitnessX.rows = 1 ∧ ybrWitnessX.cols = 1 ∧ ybrWitnessX.spp = 3 := ⟨rfl, rfl, rfl⟩
   rw [e.1, e.2.1, e.2.2] at this
   rw [this]
@@ -213,7 +261,7 @@ theorem counterexample_ybr_full (c : CodecImpl) (conv : List Int → List Int) (
 /-! ## non-vacuity: concrete frames meeting the hypotheses -/
 
 /-- a stand-in codec that refuses everything (the native examples never reach it) -/
-def noCodec : CodecImpl := ⟨fun _ _ => .error .other, fun _ _ _ _ _ => .error .other⟩
+def noCodec : CodecImpl := ⟨fun _ _ _ _ _ => .error .other, fun _ _ _ _ _ => .error .other⟩
 
 /-- 2x3 uint16 frame with extremes, explicit VR little endian -/
 example : encodeFrame noCodec ⟨"1.2.840.10008.1.2.1", 16, 16, "MONOCHROME2", 0, none⟩
@@ -238,5 +286,12 @@ example : encodeRoute ⟨"1.2.840.10008.1.2.1", 1, 1, "MONOCHROME2", 0, none⟩ 
     = .error .value := by decide
 example : encodeRoute ⟨"1.2.840.10008.1.2.1.99", 8, 8, "MONOCHROME2", 0, none⟩ ⟨1, 2, none, .u8, [1, 2]⟩
     = .error .value := by decide
+/-- one sample above 12 stored bits / below the signed 12-bit range: refused; the same frame with 4095 is accepted -/
+example : encodeRoute ⟨"1.2.840.10008.1.2.1", 16, 12, "MONOCHROME2", 0, none⟩ ⟨1, 3, none, .u16, [1, 4096, 7]⟩
+    = .error .value := by decide
+example : encodeRoute ⟨"1.2.840.10008.1.2.1", 16, 12, "MONOCHROME2", 1, none⟩ ⟨1, 3, none, .i16, [1, -2049, 7]⟩
+    = .error .value := by decide
+example : encodeRoute ⟨"1.2.840.10008.1.2.1", 16, 12, "MONOCHROME2", 0, none⟩ ⟨1, 3, none, .u16, [1, 4095, 7]⟩
+    = .ok 2 := by decide
 
 end HdVerif.C07
